@@ -27,6 +27,7 @@ RULE = (
     "beyond 2^31 (negatives also 2^32). Non-trivial = a mixed-sex cohort, or >= 3 samples with noise, or an "
     "antitarget block; distinct = distinct JSON."
 )
+CLI_SHARE = 2  # one case in CLI_SHARE also goes through the command line (vk/cli.py)
 QUICK = {"examples": 240, "shards": 16, "budget_s": 500, "shrink": False}
 THOROUGH = {"examples": 3200, "shards": 16, "budget_s": 3000}
 ASSUMPTIONS = [
